@@ -98,11 +98,8 @@ class TrajectoryExporter:
             self.logger.debug(
                 "In case an action is inapplicable, the state remains unchanged."
             )
-            next_state = State(
-                predicates=previous_state.state_predicates,
-                fluents=previous_state.state_fluents,
-                is_init=False,
-            )
+            next_state = previous_state.copy()
+            next_state.is_init = False
 
         return TrajectoryTriplet(
             previous_state=previous_state, op=operator, next_state=next_state
